@@ -60,6 +60,7 @@ EXPLANATION = (
 )
 NONTRIVIAL_RULE = "the CLI exited 0 and a machine was built from its output (or the config carried an unsupported key)"
 BOUNDS = {
+    "regen_hashseed": "3 name sets (two with action / guard / service names that differ only in letter case) x 5 templates x 4 (async, file count) modes, generated in a child process per PYTHONHASHSEED value (symbolic, 1..4 quick / 1..12 thorough) and compared byte for byte with the output under seed 0; --check run in the second process as well. The seed values are a sample of the seed space",
     "codegen_corpus": "the 104 Stately exports shipped under tests/tests_cli/stately_machines (index symbolic per item range) x 5 templates x 4 (async, file count) modes; deep fingerprint, no traces",
     "codegen_equiv": "C19 description family with the toggles of one group symbolic (others at baseline off/on) x guard form (9) x invoke form (6) x action form (2) x unsupported-key position (4) x hostile name (9) at position (5), two of these extra dimensions symbolic per item; 5 templates x async {default, yes, no} x file count {1,2} symbolic",
 }
@@ -227,8 +228,13 @@ def build_config(T: Dict[str, int], gi: int, ii: int, af: int, ui: int, hi: int,
     go_t = go[-1] if isinstance(go, list) else go
     if GUARDS[gi] is not None:
         go_t["guard"] = copy.deepcopy(GUARDS[gi])
-    if af:
+    if af == 1:
         go_t["actions"] = [{"type": "markOne", "params": {"lvl": [1, "x"]}}, "markTwo"]
+    elif af == 2:
+        # one candidate list mixing the object form and the shorthand string form; guard isOdd and action markThree are
+        # referenced nowhere else, so whoever collects names must look into the object members of a mixed list
+        a["on"]["MIX"] = [{"target": "b", "guard": "isOdd", "actions": ["markThree"]}, "b"]
+        b.setdefault("after", {})["25"] = [{"target": "a", "guard": {"type": "not", "children": ["isOdd"]}, "actions": ["markThree"]}, "a"]
     if INVOKES[ii] is not None:
         inv = copy.deepcopy(INVOKES[ii])
         if shape != 0:
@@ -511,7 +517,7 @@ def kf_applies_corpus_json(params: Dict[str, Any]) -> bool:
     return params.get("tpl") in (3, 4) and "range" in params
 
 
-EXTRA = {"g": len(GUARDS), "i": len(INVOKES), "af": 2, "u": len(UNSUPPORTED), "h": len(HOSTILE), "hp": len(POSITIONS)}
+EXTRA = {"g": len(GUARDS), "i": len(INVOKES), "af": 3, "u": len(UNSUPPORTED), "h": len(HOSTILE), "hp": len(POSITIONS)}
 
 
 MODES = [(None, 2, True), ("yes", 1, False), ("no", 2, False), (None, 1, True)]   # (async flag, file count, also check regeneration/--check)
@@ -556,7 +562,84 @@ def kf_applies_json_hostile(params: Dict[str, Any]) -> bool:
     return params.get("tpl") in (3, 4) and list(params.get("extra", [])) == ["h", "hp"]
 
 
-OBLIGATIONS = {"codegen_equiv": codegen_equiv, "codegen_corpus": codegen_corpus}
+# ---------------------------------------------------------------------------
+# regeneration in ANOTHER process (another str hash seed) is byte-identical
+# ---------------------------------------------------------------------------
+
+CASE_NAMES = [
+    # names that differ only in letter case (legal, distinct implementations), plus neighbours that sort between them
+    {"actions": ["logOut", "logout", "LogOut", "logIn"], "guards": ["canRetry", "canretry", "CanRetry"], "services": ["loadData", "loaddata"]},
+    {"actions": ["a", "B", "b", "A", "c"], "guards": ["isok", "isOk", "ISOK"], "services": ["svc", "Svc", "SVC"]},
+    {"actions": ["markOne", "markTwo", "markThree"], "guards": ["isOk", "isOdd"], "services": ["fetchData"]},
+]
+_GENPROBE: Dict[Any, Any] = {}
+
+
+def _case_config(ni: int) -> Dict[str, Any]:
+    n = CASE_NAMES[ni]
+    return {
+        "id": "cm", "initial": "a", "context": {"n": 0},
+        "states": {
+            "a": {"entry": list(n["actions"][:2]), "on": {"GO": [{"target": "b", "guard": g, "actions": [n["actions"][k % len(n["actions"])]]}
+                                                                   for k, g in enumerate(n["guards"])] + [{"target": "b", "actions": list(n["actions"])}]}},
+            "b": {"invoke": [{"src": s_, "id": f"i{k}", "onDone": {"target": "a"}} for k, s_ in enumerate(n["services"])],
+                  "exit": list(reversed(n["actions"])), "on": {"BACK": "a"}},
+        },
+    }
+
+
+def _gen_in_child(ni: int, template: str, fc: int, am: Optional[str], seed: int, check: bool) -> Any:
+    key = (ni, template, fc, am, seed, check)
+    v = _GENPROBE.get(key)
+    if v is None:
+        import subprocess
+
+        env_ = dict(os.environ)
+        env_["PYTHONHASHSEED"] = str(seed)
+        root = os.path.dirname(os.path.dirname(os.path.abspath(__file__)))
+        r = subprocess.run([sys.executable, "-m", "vf.codegen_probe", json.dumps(_case_config(ni)), template, str(fc), am or "-"] + (["--check"] if check else []),
+                           cwd=root, env=env_, capture_output=True, text=True, timeout=300)
+        if r.returncode != 0:
+            from vf.kf import HarnessLimit
+
+            raise HarnessLimit("codegen probe failed: " + r.stderr[-400:])
+        v = json.loads(r.stdout.strip().splitlines()[-1])
+        _GENPROBE[key] = v
+    return v
+
+
+def regen_hashseed(names: int, tpl: int, mode: int, seed: int) -> bool:
+    """
+    pre: gate('regen_hashseed', names=names, tpl=tpl, mode=mode, seed=seed)
+    post: _
+    """
+    ni = pick(names, len(CASE_NAMES))
+    template = TEMPLATES[pick(tpl, len(TEMPLATES))]
+    amode, fcount, _r = MODES[pick(mode, len(MODES))]
+    lo, hi = P["seeds"]
+    sd = lo + pick(seed, hi - lo)
+
+    def run() -> Optional[str]:
+        ref = _gen_in_child(ni, template, fcount, amode, 0, False)
+        got = _gen_in_child(ni, template, fcount, amode, sd, True)
+        if ref["rc"] != got["rc"]:
+            return f"exit status {got['rc']} under PYTHONHASHSEED={sd}, {ref['rc']} under 0"
+        if ref["rc"] != 0:
+            return None
+        if ref["files"] != got["files"]:
+            changed = [fn for fn in ref["files"] if got["files"].get(fn) != ref["files"][fn]]
+            return f"regenerating the unchanged input in a process with PYTHONHASHSEED={sd} (vs 0) is not byte-identical: {changed}"
+        if got.get("check_rc", 0) != 0:
+            return f"--check under PYTHONHASHSEED={sd} exits {got['check_rc']}: {got.get('check_out', '')[-160:]!r}"
+        return None
+
+    why = common.native(run)
+    if why:
+        _note(f"{template} async={amode} files={fcount} names={CASE_NAMES[ni]}: {why}")
+    return verdict(why is None)
+
+
+OBLIGATIONS = {"codegen_equiv": codegen_equiv, "codegen_corpus": codegen_corpus, "regen_hashseed": regen_hashseed}
 PROBES = {"codegen_equiv": [{"x0": 2}, {"x0": 6}, {"x0": 7}, {"x0": 2, "x1": 2}, {"v0": 1, "x0": 2}, {"v0": 3, "x0": 3}, {"v0": 1, "x0": 6, "mode": 1}]}
 
 PAIRS_QUICK = [(["shape"], ["g"]), (["shape"], ["i"]), (["shape"], ["u"]), (["tg"], ["af"]), (["rootp"], ["g"]), (["multi"], ["i"]),
@@ -575,6 +658,9 @@ def items(tier: str, seed: int) -> List[Dict[str, Any]]:
                 out.append({"ob": "codegen_equiv", "params": {"vary": vary, "extra": extra, "base": base, "tpl": tpl},
                             "timeout": 600 if quick else 2400,
                             "label": f"codegen_equiv[{TEMPLATES[tpl]},{'+'.join(vary) or '-'}|{'+'.join(extra)},base={'on' if base else 'off'}]"})
+    for lo in range(1, 5 if quick else 13, 2):
+        out.append({"ob": "regen_hashseed", "params": {"seeds": [lo, lo + 2]}, "timeout": 600 if quick else 1500,
+                    "label": f"regen_hashseed[PYTHONHASHSEED {lo}..{lo + 1} vs 0]"})
     n = len(corpus())
     step = 26 if quick else 13
     for tpl in range(len(TEMPLATES)):
